@@ -55,6 +55,7 @@ func TestC05(t *testing.T) {
 		}
 		addOptionalDefaults(rt, c, f, 0.25, o)
 		cs := caseOf(baseConfig(), []string{f.RelPath}, f)
+		countShapes(c, f, cs.Config)
 		jobs := buildJobs(rt, c, f.Root, progRoot, plan, o, cs)
 		c.Sample(sampleOf(cs, jobs))
 		countNumericShapes(c, f)
